@@ -108,6 +108,7 @@ type Project struct {
 	Files        map[string]string `json:"-"`      // extra/override files relative to the project dir
 	SoilCSVOrder int               `json:"soil_csv_order,omitempty"` // column order of the CSV soil file (see SoilCSV)
 	FCode        string            `json:"fcode,omitempty"`          // weather station code = file name stem ("" = W)
+	Heights      *[3]float64       `json:"heights,omitempty"`        // third header line of the weather files: station altitude (m), wind measurement height (m), base CO2 (0 = "-"); layouts 0 and 1 only
 	NoRadColumn  bool              `json:"no_rad_column,omitempty"`  // the weather input carries no global radiation (no column; missing-value code in the one-file-per-year layout)
 }
 
@@ -336,6 +337,7 @@ func (p *Project) WeatherCSV() string {
 		b.WriteString(",verd")
 	}
 	b.WriteString("\n" + units + "\n")
+	b.WriteString(p.heightsLine(","))
 	t := D(p.WeatherStart)
 	for _, d := range p.Weather {
 		if p.NoRadColumn {
@@ -414,6 +416,9 @@ func (p *Project) Write(root string) {
 		p.Config["WeatherFile"], p.Config["WeatherFileFormat"], p.Config["WeatherNumHeader"] = "%s.", "0", "2"
 	case 2:
 		p.Config["WeatherFile"], p.Config["WeatherFileFormat"], p.Config["WeatherNumHeader"] = "%s.csv", "2", "1"
+	}
+	if p.Heights != nil && p.Layout != 2 {
+		p.Config["WeatherNumHeader"] = "3"
 	}
 	w("config.yml", p.ConfigYML())
 	gh, gl := 99, 99
@@ -516,6 +521,18 @@ func (p *Project) WriteWeather(root string) {
 	}
 }
 
+// heightsLine: the optional third header line (altitude, wind height, base CO2).
+func (p *Project) heightsLine(sep string) string {
+	if p.Heights == nil {
+		return ""
+	}
+	co2 := "-"
+	if p.Heights[2] != 0 {
+		co2 = fmt.Sprintf("%g", p.Heights[2])
+	}
+	return fmt.Sprintf("%g%s%g%s%s\n", p.Heights[0], sep, p.Heights[1], sep, co2)
+}
+
 func (p *Project) fcode() string {
 	if p.FCode != "" {
 		return p.FCode
@@ -542,6 +559,7 @@ func (p *Project) WeatherYearFiles() map[string]string {
 		if !ok {
 			b = &strings.Builder{}
 			b.WriteString("tavg;tmin;tmax;ET0;relhumid;vapp14;wind;sundu;globrad;precip;jday\nC;C;C;mm;%;mmHg;m/s;h;MJ;mm;\n")
+			b.WriteString(p.heightsLine(";"))
 			bufs[y] = b
 		}
 		none := -99.9
